@@ -6,6 +6,7 @@ package main
 import (
 	"go/ast"
 	"go/token"
+	"go/types"
 	"regexp"
 	"strings"
 
@@ -93,10 +94,30 @@ func flattenBody(p *packages.Package, fd *ast.FuncDecl, subst map[string]string,
 			walk(x.Body.List)
 			out = append(out, flatStmt{"end-for", x})
 		case *ast.RangeStmt:
+			// `for i := range s` over a slice the body does not reassign is `for i := 0; i < len(s); i++`
+			if x.Value == nil && x.Key != nil && x.Tok == token.DEFINE {
+				if key, ok := x.Key.(*ast.Ident); ok && key.Name != "_" {
+					if t := p.TypesInfo.TypeOf(x.X); t != nil {
+						if _, isSlice := t.Underlying().(*types.Slice); isSlice && !assignsTo(x.Body, x.X) {
+							walkStmt(&ast.ForStmt{
+								Init: &ast.AssignStmt{Lhs: []ast.Expr{key}, Tok: token.DEFINE, Rhs: []ast.Expr{&ast.BasicLit{Kind: token.INT, Value: "0"}}},
+								Cond: &ast.BinaryExpr{X: key, Op: token.LSS, Y: &ast.CallExpr{Fun: &ast.Ident{Name: "len"}, Args: []ast.Expr{x.X}}},
+								Post: &ast.IncDecStmt{X: key, Tok: token.INC},
+								Body: x.Body,
+							})
+							return
+						}
+					}
+				}
+			}
 			emit(x, "range"+x.Tok.String(), x.Key, x.Value, x.X)
 			walk(x.Body.List)
 			out = append(out, flatStmt{"end-for", x})
 		case *ast.SwitchStmt:
+			if chain := switchAsIfChain(x); chain != nil {
+				walkStmt(chain)
+				return
+			}
 			emit(x, "switch", x.Init, x.Tag)
 			clauses := x.Body.List
 			if oc := orderedClauses(p, x.Body, x.Tag != nil); oc != nil {
